@@ -41,9 +41,35 @@ def scan_assumptions():
     return hits
 
 
+def rename_contracts(prop, repo, C):
+    """Sidecar contracts name loop accumulators and other locals.  If a function's locals were RENAMED since the baseline (same number of
+    bound names, same positions), the contract is rewritten to the new names instead of going stale: a harmless rename must not alarm."""
+    import re, copy
+    base = load_baseline(prop); out = dict(C); notes = []
+    for key, b in base.items():
+        fn = repo.funcs.get(key); old = b.get('locals') if isinstance(b, dict) else None
+        if fn is None or not old or key not in C or old == fn.local_order or len(old) != len(fn.local_order): continue
+        ren = {o: n for o, n in zip(old, fn.local_order) if o != n}
+        if len(set(ren.values())) != len(ren) or set(ren.values()) & set(old): continue          # not a clean renaming
+        def rw(x):
+            if isinstance(x, str):
+                for o, n in ren.items(): x = re.sub(r"(?<![\.\w'\"])%s(?![\w'\"])" % re.escape(o), n, x)
+                return x
+            if isinstance(x, dict): return {k: rw(v) for k, v in x.items()}
+            if isinstance(x, (list, tuple)): return type(x)(rw(v) for v in x)
+            return x
+        out[key] = rw(copy.deepcopy(C[key]))
+        for dk in ('locals', 'late_locals'):          # dictionaries keyed by local names
+            if dk in out[key]: out[key][dk] = {ren.get(k, k): v for k, v in out[key][dk].items()}
+        notes.append('%s: %s' % (key, ', '.join('%s->%s' % kv for kv in ren.items())))
+    return out, notes
+
+
 def generate(prop, spec, repo, C, defs, classes, LEMMAS, mode_filter=None):
     """Returns (vcs, infos, undecided) for the functions and lemmas of one property."""
     vcs = []; infos = []; und = []
+    C, renamed = rename_contracts(prop, repo, C)
+    for r in renamed: print('NOTE: locals renamed since the baseline, contract follows: ' + r)
     for item in spec['functions']:
         key, opts = (item, {}) if isinstance(item, str) else item
         ex = engine.Exec(repo, C, classes, defs, model_modules()); ex.all_lemmas = LEMMAS
@@ -325,8 +351,8 @@ def main(argv):
         os.makedirs(os.path.join(VERIF, 'baseline'), exist_ok=True)
         bl = {}
         for i in infos:
-            bl[i['function']] = dict(sha256=i['sha256'], proved=[])
-            for k, h in i.get('inlined', {}).items(): bl.setdefault(k, dict(sha256=h, proved=[]))
+            bl[i['function']] = dict(sha256=i['sha256'], proved=[], locals=(repo.funcs[i['function']].local_order if i['function'] in repo.funcs else None))
+            for k, h in i.get('inlined', {}).items(): bl.setdefault(k, dict(sha256=h, proved=[], locals=(repo.funcs[k].local_order if k in repo.funcs else None)))
         for v in vcs:
             if vcmod.status(v) == 'proved' and v.expect != 'sat': bl.setdefault(v.func, dict(sha256='', proved=[]))['proved'].append(v.name)
         for k in bl: bl[k]['proved'] = sorted(set(bl[k]['proved']))
